@@ -39,6 +39,28 @@ func (l *filterRuleList) matches(name string) bool {
 	return false
 }
 
+// Matches reports whether name is excluded by the filter rule list.
+func (l *filterRuleList) Matches(name string) bool {
+	return l.matches(name)
+}
+
+// ParseFilterRules turns filter rules in wire format (e.g. "- name" or
+// "+ name", see rsyncopts.Options.FilterRules) into a filter rule list.
+func ParseFilterRules(rules []string) (*filterRuleList, error) {
+	var l filterRuleList
+	for _, line := range rules {
+		fr, err := parseFilter(line)
+		if err != nil {
+			return nil, err
+		}
+		l.addRule(fr)
+		if fr.flag&filtruleWild != 0 {
+			return nil, fmt.Errorf("wildcard filter rules not yet implemented: %q", line)
+		}
+	}
+	return &l, nil
+}
+
 // exclude.c:recv_filter_list
 func RecvFilterList(c *rsyncwire.Conn) (*filterRuleList, error) {
 	var l filterRuleList
